@@ -632,6 +632,12 @@ func (v *StrictArray) MarshalBinary() (data []byte, err error) {
 		return nil, oe.Wrap(err, "marshal")
 	}
 
+	// The count of strict array is the number of elements to marshal,
+	// because the decoder reads exactly count elements.
+	v.lock.Lock()
+	v.count = uint32(len(v.properties))
+	v.lock.Unlock()
+
 	if err = binary.Write(b, binary.BigEndian, v.count); err != nil {
 		return nil, oe.Wrap(err, "marshal")
 	}
